@@ -163,3 +163,22 @@ def C17_first_match_not_whole(req, imp, model):
     if parts[0] == "find" and "regex:" in req:
         return model == imp
     return False
+
+
+def _cmdline_words(req):
+    parts = req.split(" ")
+    if len(parts) != 3 or parts[0] != "cmdline" or parts[2] == ".":
+        return None
+    return [_unhex(w).decode("utf-8", "replace") for w in parts[2].split(",")]
+
+
+def C11_newerxy_unanchored(req, imp, model=None):
+    """an unknown word that merely contains -newerXY is taken for that test (the pattern in
+    parse_str_to_newer_args is not anchored; unit test test_find_newer_xy_all_args pins it by
+    passing '-follow -newerXY' as one word)"""
+    import re
+    ws = _cmdline_words(req)
+    if ws is None or imp not in ("run", "help") or model != imp:
+        return False
+    pat = re.compile(r"-newer[aBcm][aBcmt]")
+    return any(pat.search(w) and not re.fullmatch(r"-newer[aBcm][aBcmt]", w) for w in ws)
